@@ -602,6 +602,17 @@ class Gen:
             f['attr_text'] = text
             d = {'kind': 'bitfield', 'name': self.name('S'), 'base': 8, 'fields': [f], 'unstructured': True}
             self.add(d, 'F7d', 'reject', [tag])
+        # unusual spellings the argument automaton accepts (the automaton, not a grammar, decides)
+        for text, tag, cnt in [('#[bits(0..=3, rw,)]', 'trailing-comma', None), ('#[bits(rw, 0..=3)]', 'access-first', None),
+                               ('#[bits(0..=3, r, w)]', 'r-then-w', None), ('#[bits(0..=3, rw, rw)]', 'access-twice', None),
+                               ('#[bits(0..=1, rw, stride: 2)]', 'stride-colon', 2), ('#[bits(stride = 2, 0..=1, rw)]', 'stride-first', 2),
+                               ('#[bits([0..=1, 2..=3,], rw)]', 'list-trailing-comma', None), ('#[bits([0..=3], rw)]', 'one-element-list', None),
+                               ('#[bits(, 0..=3, rw)]', 'leading-comma', None)]:
+            n = 4 if cnt is None else 2
+            f = self.field('x', {'k': 'u', 'n': n}, [('r', 0, n - 1)], count=cnt)
+            f['attr_text'] = text
+            d = {'kind': 'bitfield', 'name': self.name('S'), 'base': 8, 'fields': [f], 'unstructured': True}
+            self.add(d, 'F7d', 'accept', [tag])
         # unsupported base types
         for bt, tag in [('u0', 'base-u0'), ('u129', 'base-u129'), ('u200', 'base-u200'), ('i32', 'base-i32'), ('usize', 'base-usize'),
                         ('bool', 'base-bool')]:
